@@ -45,6 +45,9 @@ pub struct ServerModel {
     pub consumed: BTreeSet<u32>,
     pub issued_streams: BTreeSet<u32>,
     pub streams: BTreeMap<u32, SState>,
+    /// ids whose accept was refused because their stream had gone: whether such an id is spent or still
+    /// outstanding is not settled by the statement ("accepted or rejected exactly once" - it was neither)
+    pub limbo: BTreeSet<u32>,
 }
 
 type Verdict = Result<(), (String, String)>;
@@ -219,7 +222,29 @@ impl ServerModel {
                     }
                 }
             }
-            SAct::PublishMalformed { .. } => none("malformed-publish"),
+            SAct::PublishMalformed { sid, .. } | SAct::PlayMalformed { sid, .. } => {
+                // The statement does not say what an incomplete argument list must lead to.  Refusing it (today's
+                // behaviour) is fine; so is a tolerant session that still surfaces a request - but then only after an
+                // accepted connection, under the accepted application name, with a fresh id, and the request is
+                // outstanding like any other.
+                match (&self.connected, evs.as_slice()) {
+                    (_, []) => Ok(()),
+                    (Some(app), [Ev::PubReq { app: ga, key: gk, id, .. }]) | (Some(app), [Ev::PlayReq { app: ga, key: gk, id, .. }]) => {
+                        if ga != app {
+                            return v("malformed-request/app-name", format!("{:?} surfaced under app {:?}, accepted app is {:?}", a, ga, app));
+                        }
+                        if self.issued_req.contains(id) {
+                            return v("request-id-not-fresh", format!("request id {} was issued before", id));
+                        }
+                        self.issued_req.insert(*id);
+                        let req = if matches!(evs[0], Ev::PubReq { .. }) { Req::Publish { sid: *sid, key: gk.clone() } } else { Req::Play { sid: *sid, key: gk.clone() } };
+                        self.out.insert(*id, req);
+                        Ok(())
+                    }
+                    (None, other) => v("unexpected-event/request-before-connect", format!("{:?} raised {:?} before any connection was accepted", a, other)),
+                    (_, other) => v("unexpected-event/malformed-request", format!("{:?} raised {:?}", a, other)),
+                }
+            }
             SAct::PublishExtra { .. } | SAct::PlayExtra { .. } => unreachable!("mapped to Publish / Play above"),
             SAct::Play { sid, key } => match &self.connected {
                 Some(app) => match evs.as_slice() {
@@ -245,7 +270,6 @@ impl ServerModel {
                     Ok(())
                 }
             },
-            SAct::PlayMalformed { .. } => none("malformed-play"),
             SAct::CloseStream { sid } | SAct::DeleteStream { sid } => {
                 let delete = matches!(a, SAct::DeleteStream { .. });
                 let app = match &self.connected {
@@ -352,6 +376,11 @@ impl ServerModel {
             SAct::UnknownCommand | SAct::Raw { .. } => none("unknown-command"),
             SAct::Accept { id } => {
                 match self.out.remove(id) {
+                    None if self.limbo.contains(id) => {
+                        // refused once because its stream had gone: refused again, or (the stream cannot come back) any
+                        // other consistent answer without events
+                        none("accept-after-refused-accept")
+                    }
                     None => {
                         if o.ok() {
                             return v("accept/stale-or-unknown-id-accepted", format!("accept_request({}) succeeded although that id is not outstanding (consumed before: {})", id, self.consumed.contains(id)));
@@ -383,6 +412,17 @@ impl ServerModel {
                 }
             }
             SAct::Reject { id } => match self.out.remove(id) {
+                None if self.limbo.contains(id) => {
+                    // still outstanding (rejected now, once) or already spent (refused): both fit the statement
+                    none("reject-after-refused-accept")?;
+                    if o.ok() {
+                        self.limbo.remove(id);
+                        if !has_error_reply(outs) {
+                            return v("reject/no-error-reply", format!("{:?}", outs));
+                        }
+                    }
+                    Ok(())
+                }
                 None => {
                     if o.ok() {
                         return v("reject/stale-or-unknown-id-accepted", format!("reject_request({}) succeeded although that id is not outstanding", id));
@@ -447,9 +487,12 @@ impl ServerModel {
                 Ok(())
             }
             None => {
-                // the stream was deleted meanwhile or never created: Ok or Err, the id is spent
+                // the stream was deleted meanwhile or never created: Ok or Err; after an Err the id may be spent or
+                // still outstanding
                 if o.ok() {
                     self.streams.insert(sid, SState::Unknown);
+                } else {
+                    self.limbo.insert(id);
                 }
                 Ok(())
             }
